@@ -109,13 +109,19 @@ class ProxiedRegion(BaseClientRegion):
         self.register_cap(name + "ProxyWrapper", wrapper_url, CapType.WRAPPER)
         return wrapper_url
 
+    def proxy_cap_url(self, name: str) -> Optional[str]:
+        """URL of the proxy-only cap `name`, even if the sim granted a cap of that name since"""
+        for cap_type, cap_url in self.caps.getall(name, []):
+            if cap_type == CapType.PROXY_ONLY:
+                return cap_url
+        return None
+
     def register_proxy_cap(self, name: str):
         """Register a cap to be completely handled by the proxy"""
-        if name in self.caps:
-            # If we have an existing cap then we should just use that.
-            cap_data = self.caps[name]
-            if cap_data[0] == CapType.PROXY_ONLY:
-                return cap_data[1]
+        # If we have an existing cap then we should just use that.
+        existing_url = self.proxy_cap_url(name)
+        if existing_url:
+            return existing_url
         cap_url = f"http://{uuid.uuid4()!s}.caps.hippo-proxy.localhost"
         self.register_cap(name, cap_url, CapType.PROXY_ONLY)
         return cap_url
